@@ -70,6 +70,19 @@ def scripts(tier, seed, scale=1):
                 out.append(("arr:%d:%s:%s" % (n, "".join(x[6] for x in rel), "|".join(x[2:] for x in act)),
                             head + rel + act + ["r arr drop", "r end"]))
                 out.append(("arrend:%d:%s:%s" % (n, "".join(x[6] for x in rel), "|".join(x[2:] for x in act)), head + rel + act + ["r end"]))
+    # a dispatcher whose parameter handlers hold references (mpt_dispatch_param): counter presets where the second or third
+    # reference is refused; everything retained is given back exactly once by fini / at the end
+    for pre in ("1", "2", "max-1", "max", "0"):
+        head = ["r begin", "r obj meta " + pre, "r obj meta 1"]
+        if pre == "max-1":
+            heads = [head, head + ["r ext 0 unref"], head + ["r ext 0 unref", "r ext 0 unref"]]
+        else:
+            heads = [head]
+        for hd in heads:
+            for mid in ([], ["r take 0 0"], ["r ext 0 unref"], ["r take 0 0", "r ext 0 unref"]):
+                for tail in (["r dsp fini"], [], ["r dsp fini", "r dsp param 0", "r dsp fini"], ["r dsp fini", "r drop 0"]):
+                    out.append(("dsp:%s:%d:%s:%s" % (pre, len(hd), "|".join(x[2:] for x in mid), "|".join(x[2:] for x in tail)),
+                                hd + ["r dsp param 0"] + mid + tail + ["r end"]))
     depth = 3 if tier == "quick" else 4
     # exhaustive histories per kind
     for kind in ("meta", "buf"):
